@@ -585,7 +585,8 @@ sxround_dur_cocl(dt_sexy_t t, struct dt_dtdur_s dur, bool nextp)
 		return t;
 	}
 	/* unpack t */
-	with (unsigned int diff = t % (dt_sexy_t)sdur) {
+	/* count from the multiple below, also before the epoch */
+	with (dt_ssexy_t diff = (t % (dt_sexy_t)sdur + sdur) % sdur) {
 		if (!diff && !nextp) {
 			/* do nothing, i.e. really nothing,
 			 * in particular, don't set the slots again in the
